@@ -125,6 +125,16 @@ M = [
 				&pinInfo,
 			)
 			api.sendResponse(w, autoStatus, err, pinInfo)'''),
+ ('C09-hand-disk-valid-despite-error', 'informer/disk/disk.go',
+  '''	if err != nil {
+		logger.Error(err)
+		valid = false
+	} else {''', '''	if err != nil {
+		logger.Error(err)
+	} else {'''),
+ ('C09-hand-numpin-no-ttl', 'informer/numpin/numpin.go',
+  '''	m.SetTTL(npi.config.MetricTTL)
+	return m''', '''	return m'''),
  ('C04-hand-unpindag-breaks-on-error', 'cluster.go',
   '''		err = c.consensus.LogUnpin(ctx, api.PinCid(ci))
 		if err != nil {
